@@ -184,6 +184,11 @@ func sameSliceVal(a, b ssa.Value) bool {
 				if !(instrDominates(x, la) && instrDominates(x, lb)) {
 					return false
 				}
+			case *ssa.MakeClosure:
+				// captured by a closure that only reads it (a parameter used inside a local func literal)
+				if !closureOnlyReads(x, al) {
+					return false
+				}
 			default:
 				return false
 			}
@@ -687,4 +692,33 @@ func provesLEPoly(env *IntEnv, E ssa.Value, extra int64, s ssa.Value, b *ssa.Bas
 		}
 	}
 	return found, false
+}
+
+// closureOnlyReads: the closure mc captures the variable al and never stores through it (nor passes its
+// address on): every use of the corresponding free variable is a load.
+func closureOnlyReads(mc *ssa.MakeClosure, al *ssa.Alloc) bool {
+	fn, ok := mc.Fn.(*ssa.Function)
+	if !ok {
+		return false
+	}
+	for i, b := range mc.Bindings {
+		if b != ssa.Value(al) {
+			continue
+		}
+		if i >= len(fn.FreeVars) {
+			return false
+		}
+		for _, ref := range *fn.FreeVars[i].Referrers() {
+			switch x := ref.(type) {
+			case *ssa.DebugRef:
+			case *ssa.UnOp:
+				if x.Op != token.MUL {
+					return false
+				}
+			default:
+				return false
+			}
+		}
+	}
+	return true
 }
